@@ -579,6 +579,7 @@ size_t rtosc_message_ring_length(ring_t *ring)
         return bundle_ring_length(ring);
 
     //Proceed for normal messages
+    const size_t total_len = ring[0].len+ring[1].len;
     //Consume path
     unsigned pos = 0;
     while(deref(pos++,ring));
@@ -637,6 +638,10 @@ size_t rtosc_message_ring_length(ring_t *ring)
                 i |= (deref(pos++,ring) << 16);
                 i |= (deref(pos++,ring) << 8);
                 i |= (deref(pos++,ring));
+                //a blob reaching past the end means no full message is present
+                //(and must not wrap the 32 bit position)
+                if(i > total_len || pos > total_len-i)
+                    return 0;
                 pos += i;
                 if((pos-aligned_pos)%4)
                     pos += 4-(pos-aligned_pos)%4;
@@ -648,7 +653,7 @@ size_t rtosc_message_ring_length(ring_t *ring)
     }
 
 
-    return pos <= (ring[0].len+ring[1].len) ? pos : 0;
+    return pos <= total_len ? pos : 0;
 }
 
 size_t rtosc_message_length(const char *msg, size_t len)
